@@ -26,13 +26,14 @@ fn main() {
     match cmd {
         "gen-stats" => gen_stats(&args[2..]),
         "probe-missing" => {
-            for s in ["def f(:\n    pass\n", "class K(:\n    pass\n", "x = (1\n", "f(1\n", "x = [1, 2\n", "x = {1: 2\n", "print(a\ny = 2\n", "def g(a, b:\n    return a\n", "x = 1 +\n", "if x\n    pass\n", "for i in y\n    pass\n", "while x\n    pass\n", "def h()\n    pass\n", "lambda x 1\n", "x = a if b\n", "with open(f) as g\n    pass\n", "try\n    pass\nexcept:\n    pass\n", "class K\n    pass\n", "x[1\n", "f(a, b\n"] {
+            for s in ["def zf():\n    x = a.\n", "x = a.\n", "def zg():\nx = 1\n", "if x:\ny = 1\n", "class K:\nx = 2\n", "for i in y:\nz = 1\n", "def f(:\n    pass\n", "class K(:\n    pass\n", "x = (1\n", "f(1\n", "x = [1, 2\n", "x = {1: 2\n", "print(a\ny = 2\n", "def g(a, b:\n    return a\n", "x = 1 +\n", "if x\n    pass\n", "for i in y\n    pass\n", "while x\n    pass\n", "def h()\n    pass\n", "lambda x 1\n", "x = a if b\n", "with open(f) as g\n    pass\n", "try\n    pass\nexcept:\n    pass\n", "class K\n    pass\n", "x[1\n", "f(a, b\n"] {
                 let tree = simrun::parse_python(s);
                 let mut missing = 0; let mut error = 0;
                 let mut c = tree.walk(); let mut done = false;
                 while !done {
                     let n = c.node();
                     if n.is_missing() { missing += 1; }
+                    if n.start_byte() == n.end_byte() && !n.is_missing() { print!("[zero-width {}] ", n.kind()); }
                     if n.is_error() { error += 1; }
                     if c.goto_first_child() { continue; }
                     loop { if c.goto_next_sibling() { break; } if !c.goto_parent() { done = true; break; } }
